@@ -160,6 +160,7 @@ REPRO = {
     "D-67": ("_*a*_ b\n", dict(width=88, semantic=False)),
     "D-69": ("<a  \nhref=\"x\">foo</a> bar\n", dict(width=88, semantic=False)),
     "D-37": ("1) one\n2) two\n\n1. three\n2. four\n", dict(width=88, semantic=False)),
+    "D-60": ("Please see [the end. Then more](<a\\> b>) for details about it.\n", dict(width=88, semantic=True)),
     "D-83": ("x {% t %}\n| a\n", dict(width=88, semantic=False)),
     "D-84": ("a\\  \nb\n", dict(width=88, semantic=False)),
     "D-85": ("x[^n]\n\n[^n]:     \n\ny\n", dict(width=88, semantic=False)),
@@ -267,6 +268,11 @@ def classify(kf, rec):
     if cl == "hard-break-inside-inline-html":
         return bool(re.search(r"<[^<>\n]*  +\r?\n[^<>]*>", doc)) and any(k in what for k in ("InlineHTML", "LineBreak", "Text"))
     src0 = c.get("parser_input") or doc
+    if cl == "sentence-end-inside-construct":
+        # semantic mode: a link whose text holds a sentence end is cut there before it is protected as one word; with a space in its
+        # destination or title the second half is then broken again and no longer reads as a link
+        return bool(c["opts"].get("semantic")) and bool(re.search(r"\[[^\]\n]*[a-z0-9][.!?][\"')]* [^\]\n]*\]\([^)\n]* [^)\n]*\)", src0)) and \
+            any(k in what for k in ("Link", "Text", "Image"))
     if cl == "block-like-line-after-tag-line":
         # a line that ends in a template tag / comment, directly followed (same paragraph) by a line that looks like a table row or list item
         return bool(re.search(r"(?:%\}|#\}|\}\}|-->)[ \t]*\r?\n[ \t]*(?:\||[-*+][ \t]|\d+[.)][ \t])", src0)) and ("Paragraph" in what or "Text" in what)
